@@ -1,6 +1,7 @@
 (* C11 — property theorems only. *)
 From Coq Require Import ZArith List.
 From IV Require Import Common.Int32 C12.Codec C12.Defs C11.Defs C11.Proofs.
+From IV Require Import C11.Flags.
 Import ListNotations.
 Local Open Scope Z_scope.
 
@@ -37,3 +38,17 @@ Print Assumptions c11_linksb_sound.
 Theorem c11_nodupb_sound : forall l, nodupb l = true <-> NoDup l.
 Proof. exact nodupb_NoDup. Qed.
 Print Assumptions c11_nodupb_sound.
+
+(* a flag that announces a cross reference and the reference itself go together (has-getter/setter/has/clear/del/insert/getkey <-> the function
+   index is not 0): the checker run on every real database decides exactly that, and remapping with a remapper that sends exactly 0 to 0 keeps it *)
+Theorem c11_flagsb_sound : forall d, flagsb d = true -> flags_consistent d.
+Proof. exact flagsb_sound. Qed.
+Print Assumptions c11_flagsb_sound.
+
+Theorem c11_flagsb_complete : forall d, flags_consistent d -> flagsb d = true.
+Proof. exact flagsb_complete. Qed.
+Print Assumptions c11_flagsb_complete.
+
+Theorem c11_remap_keeps_element_flags : forall r e, (forall i, r i = 0 <-> i = 0) -> element_flags_consistent e -> element_flags_consistent (rm_element r e).
+Proof. exact rm_element_flags. Qed.
+Print Assumptions c11_remap_keeps_element_flags.
